@@ -140,7 +140,7 @@ def gen_groups(ctx):
         gid += 1
 
     for kind in ddgen.KINDS_BOOL:
-        orders = ddgen.PERMS3 if thorough else [rng.choice(ddgen.PERMS3)]
+        orders = rng.sample(ddgen.PERMS3, 3) if thorough else [rng.choice(ddgen.PERMS3)]
         for order in orders:
             add(kind, ddgen.case_unary_and_consts("x", kind, order))
             for op in ddgen.BIN_OPS:
@@ -285,7 +285,7 @@ def run(ctx):
         ctx, "proof",
         rule="group = one op script (per kind bdd/bcdd/zbdd: two-route construction + not/eval/node_count/cofactors of all 256 "
              "three-variable functions, all 65536 ordered pairs per binary operator, sampled ite triples, under a seed-chosen "
-             "variable order (all 6 in the thorough tier); random histories with gc/reorder/add_vars/quantification/"
+             "variable order (3 in the thorough tier); random histories with gc/reorder/add_vars/quantification/"
              "substitution/sat_count over 3..7 variables; mtbdd<i64> histories and all pairs of the 121 one-variable functions "
              "(index store only)); every group runs on every build configuration (" + ", ".join(cfgs) + "), histories and one "
              "pair suite per kind additionally with 1, 2 and 8 workers; compared: driver verdict of every run (spec) and the "
